@@ -144,6 +144,15 @@ theorem geometry_length {w h depth : Nat} {d : BList} (hg : Geometry w h depth d
   · have : rowSize w 32 = w * 4 := by unfold rowSize; omega
     rw [hl, this]; simp [Nat.mul_right_comm]
 
+/-- the bounded inflate (`_inflate(data, length)`, repo 72f34ff) returns a deflated string that is not longer than
+the expected size -/
+theorem inflateBounded_deflate (z : ZCodec) (hz : z.Lawful) (x : BList) (length : Nat) (h : x.length ≤ length) :
+    inflateBounded z (z.deflate x) length = .ok x := by
+  unfold inflateBounded
+  rw [hz x]
+  simp only
+  rw [if_neg (by omega)]
+
 /-- decompress ∘ compress = id for the four codecs, every geometry, both file versions. -/
 theorem compress_roundtrip (z : ZCodec) (hz : z.Lawful) (c : Codec) (d : BList)
     (w h depth version : Nat) (hg : Geometry w h depth d) (ha : Admissible c d w h depth version) :
@@ -168,7 +177,7 @@ theorem compress_roundtrip (z : ZCodec) (hz : z.Lawful) (c : Codec) (d : BList)
     exact hassert
   | zip =>
     refine ⟨z.deflate d, rfl, ?_⟩
-    simp only [decompress, decompressBody, hz d]
+    simp only [decompress, decompressBody, inflateBounded_deflate z hz d _ hlen.1]
     exact hassert
   | zipPred =>
     obtain ⟨hne, hw⟩ := ha.2 rfl
@@ -181,9 +190,9 @@ theorem compress_roundtrip (z : ZCodec) (hz : z.Lawful) (c : Codec) (d : BList)
     have hl : d.length = w * h * (depth / 8) := by
       have := hlen.2 (by omega)
       rcases hdepth with rfl | rfl | rfl <;> simpa using this
-    obtain ⟨e, h1, _, h3⟩ := prediction_roundtrip d w h depth hdepth hl hw
+    obtain ⟨e, h1, h2, h3⟩ := prediction_roundtrip d w h depth hdepth hl hw
     refine ⟨z.deflate e, by simp [compress, h1], ?_⟩
-    simp only [decompress, decompressBody, hz e, h3]
+    simp only [decompress, decompressBody, inflateBounded_deflate z hz e _ (by rw [h2]; exact hlen.1), h3]
     exact hassert
 
 /-! ### Containers -/
